@@ -19,7 +19,8 @@ LEVEL = "exploration"
 RULE = (
     "Histories = Hypothesis rule-based state machine over a pool of regions, each paired with a bytes-level model "
     "(bytes, rate, width, channels). Steps: new region (distinct content, incl. empty, usually the pool's base format, "
-    "sometimes a format differing in rate, width or channels, optional start), a+b, sum([...]), a*n, n*a, a/n (n>=1 "
+    "sometimes a format differing in rate, width or channels - or with the same bytes per sample split differently "
+    "into width x channels -, optional start), twin (same bytes, another format), a+b, sum([...]), a*n, n*a, a/n (n>=1 "
     "incl. n>len; pieces go back to the pool), sep.join([...]), make_silence(d), slice, ==, attempted mutation "
     "(setattr/delattr), construction from ragged data. Oracle per step: byte-level concatenation / repetition / "
     "interleaving; division -> min(n,len) contiguous pieces, lengths differing by <= 1, concatenating to the original; "
@@ -30,7 +31,7 @@ RULE = (
     "per sample."
 )
 MUST_HIT = ["div_remainder_multichannel", "div_n_gt_len", "mismatch_sr", "mismatch_sw", "mismatch_ch", "join_3",
-            "mutation_refused", "ragged_refused", "silence", "eq_true", "eq_false"]
+            "mutation_refused", "ragged_refused", "silence", "eq_true", "eq_false", "twin_same_bytes_per_sample"]
 ASSUMPTIONS = ["dividing an empty region is not claimed by the statement and not generated"]
 BOUNDS = {"quick": dict(n=200, steps=30), "thorough": dict(n=4000, steps=50)}
 MAXBYTES = 6000
@@ -42,6 +43,9 @@ class Interp:
         sr, sw, ch = cfg["fmt"]
         # four formats: the base one and one differing in each parameter
         self.fmts = [(sr, sw, ch), (sr + 1, sw, ch), (sr, {1: 2, 2: 4, 4: 1}[sw], ch), (sr, sw, ch + 1)]
+        # fifth format: same number of bytes per sample, other (width, channels) split - when one exists
+        alt = [(w, (sw * ch) // w) for w in (1, 2, 4) if (sw * ch) % w == 0 and w != sw]
+        self.fmts.append((sr,) + alt[0] if alt else (sr, sw, ch + 2))
         self.ops = []
         self.pool = []  # [(region, (bytes, sr, sw, ch), depth)]
         self.classes = set()
@@ -114,6 +118,21 @@ class Interp:
             data = content(N, sw * ch, salt)
             r = auditok.AudioRegion(data, sr, sw, ch, start) if start is not None else auditok.AudioRegion(data, sr, sw, ch)
             self.add(r, (data, sr, sw, ch), 0)
+        elif name == "twin":
+            # same bytes as an existing region, another format: equal bytes must not make them equal
+            a, ma, _da = self.pick(op[1])
+            sr, sw, ch = self.fmts[op[2]]
+            if len(ma[0]) % (sw * ch):
+                self.ops.pop()
+                return
+            r = auditok.AudioRegion(ma[0], sr, sw, ch)
+            self.add(r, (ma[0], sr, sw, ch), 0)
+            want = (ma[1:] == (sr, sw, ch))
+            if (a == r) != want:
+                raise Violation(f"regions with identical bytes and formats {ma[1:]} / {(sr, sw, ch)}: == is {a == r}", case())
+            self.classes.add("twin_other_format" if not want else "twin_same_format")
+            if not want and (sw * ch) == ma[2] * ma[3] and sr == ma[1]:
+                self.classes.add("twin_same_bytes_per_sample")
         elif name == "add":
             (a, ma, da), (b, mb, db) = self.pick(op[1]), self.pick(op[2])
             if len(ma[0]) + len(mb[0]) > MAXBYTES:
@@ -240,7 +259,7 @@ def check_case(case, rec):
 
 
 IDX = st.integers(0, 13)
-FMT = st.sampled_from([0, 0, 0, 0, 0, 0, 1, 2, 3])
+FMT = st.sampled_from([0, 0, 0, 0, 0, 0, 1, 2, 3, 4])
 
 
 class AlgebraMachine(RuleBasedStateMachine):
@@ -260,6 +279,10 @@ class AlgebraMachine(RuleBasedStateMachine):
           start=st.one_of(st.none(), st.floats(0, 100, allow_nan=False)))
     def new(self, N, f, salt, start):
         self.it.apply(["new", N, f, salt, start])
+
+    @rule(i=IDX, f=st.sampled_from([0, 1, 2, 3, 4, 4]))
+    def twin(self, i, f):
+        self.it.apply(["twin", i, f])
 
     @rule(i=IDX, j=IDX)
     def add(self, i, j):
@@ -316,7 +339,8 @@ def explicit_cases():
                              ["mutate", 0, "data", "set"], ["mutate", 0, "channels", "del"], ["ragged", 0, 5]]},
         {"cfg": cfg, "ops": [["new", 4, 0, 1, None], ["new", 4, 1, 1, None], ["new", 4, 2, 1, None], ["new", 4, 3, 1, None],
                              ["add", 0, 1], ["add", 0, 2], ["add", 0, 3], ["join", 0, [0, 3]], ["sum", [0, 2]],
-                             ["new", 4, 0, 1, 2.5], ["eq", 0, 4], ["eq", 0, 1]]},
+                             ["new", 4, 0, 1, 2.5], ["eq", 0, 4], ["eq", 0, 1], ["twin", 0, 4], ["add", 0, 5], ["eq", 0, 5],
+                             ["join", 0, [5]], ["twin", 0, 0]]},
     ]
 
 
